@@ -64,18 +64,18 @@ Lemma cmp_less_ok tt tu t u : WT tt -> WT tu -> in_ty tt t = true -> in_ty tu u 
 Proof.
   intros HT HU Ht Hu. unfold cmp_less_m, cmp_less_spec.
   destruct (sgn tt) eqn:ST, (sgn tu) eqn:SU; cbn [Bool.eqb].
-  - apply lt_conv_ok; auto. left. congruence.
+  - apply lt_conv_ok; auto; left; congruence.
   - rewrite (lt_conv_ok tt i32 t 0 HT WT_i32 Ht in_ty_i32_0) by (left; rewrite ST; reflexivity).
     pose proof (unsigned_nonneg tu u SU Hu) as U0.
     destruct (Z.ltb_spec t 0) as [N|N]; [lia|].
     destruct (nonneg_unsigned tt t HT ST Ht N) as [I ->].
-    apply lt_conv_ok; auto. right. lia.
+    apply lt_conv_ok; auto; right; lia.
   - rewrite (lt_conv_ok tu i32 u 0 HU WT_i32 Hu in_ty_i32_0) by (left; rewrite SU; reflexivity).
     pose proof (unsigned_nonneg tt t ST Ht) as T0.
     destruct (Z.ltb_spec u 0) as [N|N]; [lia|].
     destruct (nonneg_unsigned tu u HU SU Hu N) as [I ->].
-    apply lt_conv_ok; auto. right. lia.
-  - apply lt_conv_ok; auto. left. congruence.
+    apply lt_conv_ok; auto; right; lia.
+  - apply lt_conv_ok; auto; left; congruence.
 Qed.
 
 Lemma cmp_equal_ok tt tu t u : WT tt -> WT tu -> in_ty tt t = true -> in_ty tu u = true ->
@@ -83,18 +83,18 @@ Lemma cmp_equal_ok tt tu t u : WT tt -> WT tu -> in_ty tt t = true -> in_ty tu u
 Proof.
   intros HT HU Ht Hu. unfold cmp_equal_m, cmp_equal_spec.
   destruct (sgn tt) eqn:ST, (sgn tu) eqn:SU; cbn [Bool.eqb].
-  - apply eq_conv_ok; auto. left. congruence.
+  - apply eq_conv_ok; auto; left; congruence.
   - rewrite (lt_conv_ok tt i32 t 0 HT WT_i32 Ht in_ty_i32_0) by (left; rewrite ST; reflexivity).
     pose proof (unsigned_nonneg tu u SU Hu) as U0.
     destruct (Z.ltb_spec t 0) as [N|N]; [lia|].
     destruct (nonneg_unsigned tt t HT ST Ht N) as [I ->].
-    apply eq_conv_ok; auto. right. lia.
+    apply eq_conv_ok; auto; right; lia.
   - rewrite (lt_conv_ok tu i32 u 0 HU WT_i32 Hu in_ty_i32_0) by (left; rewrite SU; reflexivity).
     pose proof (unsigned_nonneg tt t ST Ht) as T0.
     destruct (Z.ltb_spec u 0) as [N|N]; [lia|].
     destruct (nonneg_unsigned tu u HU SU Hu N) as [I ->].
-    apply eq_conv_ok; auto. right. lia.
-  - apply eq_conv_ok; auto. left. congruence.
+    apply eq_conv_ok; auto; right; lia.
+  - apply eq_conv_ok; auto; left; congruence.
 Qed.
 
 Lemma cmp_not_equal_ok tt tu t u : WT tt -> WT tu -> in_ty tt t = true -> in_ty tu u = true ->
